@@ -102,8 +102,9 @@ def rhu_summary(I, env, W):
 
 
 # ============================================================================ ltf / lpsd
-def ltf_step(W, cfg, bound=None, use_lpsd=False):
-    """returns dict of symbolic step results for ltf_plan (through lpsd_plan when use_lpsd)"""
+def ltf_step(W, cfg, bound=None, use_lpsd=False, prior=False):
+    """returns dict of symbolic step results for ltf_plan (through lpsd_plan when use_lpsd)
+    prior=True: an earlier plan (another record) has been computed by the same module copy before"""
     Sm = S()
     fd = astx.get_function_ast(Sm.ltf_plan)
     pre, wh, post = split_body(fd)
@@ -116,6 +117,12 @@ def ltf_step(W, cfg, bound=None, use_lpsd=False):
         lp = clone(Sm.lpsd_plan, ltf_plan=lambda **kw: rec.update(kw) or {"rec": True})
         lp(**args)
         args = rec
+    if prior:
+        lb = I.loop_bound
+        I.loop_bound = 64
+        astx._Closure(I, fd, {})(**PRIOR)
+        I.loop_bound = lb
+        I.trace.clear(); I.unwind.clear()
     env = {"args": args}
     env = I.block(pre, env)
     rhu_summary(I, env, W)
@@ -406,20 +413,25 @@ def seg_goals(W, out, cfg, Lmin, which, shift=None):
 
 
 # ============================================================================ obligations: ltf / lpsd
-def ob_ltf(W, sched, part, bound=12):
+def ob_ltf(W, sched, part, bound=12, prior=False):
     cfg = config(W)
     if not W.sym:
+        if prior:
+            try:
+                getattr(S(), "%s_plan" % sched)(**{k: v for k, v in PRIOR.items() if sched == "ltf" or k not in ("bmin", "Lmin")})
+            except BaseException:
+                pass
         return concrete_goals(W, sched, cfg, _GOALS[part])
     try:
-        return _ob_ltf_sym(W, sched, part, bound, cfg)
+        return _ob_ltf_sym(W, sched, part, bound, cfg, prior)
     except (KeyError, IndexError, NameError, AttributeError) as e:
         # the obligation reads the scheduler through its loop variable and its returned plan; anything else it touches
         # (local names used for lemma hints, the shape of the start loop) is optional -- a different code shape is inconclusive
         raise Unsupported("scheduler code shape not recognised by this obligation (%s: %s)" % (type(e).__name__, e))
 
 
-def _ob_ltf_sym(W, sched, part, bound, cfg):
-    I, env0, env1, post, args = ltf_step(W, cfg, use_lpsd=(sched == "lpsd"))
+def _ob_ltf_sym(W, sched, part, bound, cfg, prior=False):
+    I, env0, env1, post, args = ltf_step(W, cfg, use_lpsd=(sched == "lpsd"), prior=prior)
     N, fs, olap = cfg["N"], cfg["fs"], cfg["olap"]
     bmin, Lmin = args["bmin"], args["Lmin"]
     loopvar = env0["__loopvar__"]
